@@ -15,6 +15,7 @@ build() {
   [ -x /verif/bin/prebuild-$n ] && { /verif/bin/prebuild-$n || return 1; }
   go build $extra -o bin/$n ./cmd/$n
 }
+/verif/bin/build-racepass || { echo "setup: build of racepass failed" >&2; fail=1; }
 for n in instr elkx $registered; do
   [ -d cmd/$n ] || continue
   build $n || { echo "setup: build of $n failed" >&2; fail=1; }
